@@ -84,7 +84,7 @@ structure St where
 
 def runCall (w : World) (ops : List SOp) (g : List GTok) : World × String :=
   let w' := runFuel fuel (call { w with out := [] } ops g)
-  (w', showOut w'.out)
+  (w', if w'.out.isEmpty then "-" else showOut w'.out)
 
 def rsObs (n : Nat) : String := s!"got={n} owner=1 dereg=1"
 def concObs (pubs n cs : Nat) : String :=
